@@ -36,27 +36,42 @@ def _in_a(letter):
     return letter in A_LETTERS
 
 
-def gen_tree(rng, max_up=4):
+SE_IDS = [10, 20, 30, 40, 75, 101, 102, 300, 55, 66, 77, 88]
+
+
+def gen_tree(rng, max_up=None, deep=None):
+    """a random superelement tree below the residual 0: depth <= 4, at most 3 upstream SEs per SE;
+    `deep` forces a chain of that depth (so that every run sees multi-level recursion)"""
+    if max_up is None:
+        max_up = rng.choice([1, 2, 3, 4, 4, 5, 6, 7])
     n_up = rng.randint(1, max_up)
-    se_ids = rng.sample([10, 20, 30, 40, 75, 101, 102, 300], n_up)
+    if deep:
+        n_up = max(n_up, deep)
+    se_ids = rng.sample(SE_IDS, n_up)
     parent, order = {}, []
     depth = {0: 0}
-    for s in se_ids:
-        cands = [0] + [o for o in order if depth[o] < 2]
-        p = rng.choice(cands) if rng.random() < 0.45 else 0
+    nchild = {0: 0}
+    for k, s in enumerate(se_ids):
+        if deep and k < deep:
+            p = order[-1] if order else 0  # the forced chain
+        else:
+            cands = [o for o in [0] + order if depth[o] < 4 and nchild[o] < 3]
+            p = rng.choice(cands) if rng.random() < 0.6 else (0 if nchild[0] < 3 else rng.choice(cands))
         parent[s] = p
         depth[s] = depth[p] + 1
+        nchild[p] += 1
+        nchild[s] = 0
         order.append(s)
     return order, parent
 
 
-def gen_nas(rng, style=None):
+def gen_nas(rng, style=None, deep=None):
     """returns (nas dict for pyyeti, info) ; info holds the construction knowledge"""
     from pyyeti.nastran import n2p
 
     masks = n2p.mkusetmask()
     style = style or rng.choice(["csuper", "csuper", "csuper-reorder", "seconct", "mixed", "notall6", "noq"])
-    order, parent = gen_tree(rng)
+    order, parent = gen_tree(rng, deep=deep)
     children = {s: [c for c in order if parent[c] == s] for s in order + [0]}
     tables = {}  # se -> list of Node in table order
     asetnodes = {}  # se -> list of Node (a-set nodes in table order)
@@ -237,7 +252,13 @@ def gen_nas(rng, style=None):
         "maps": maps,
         "upids": upids_d,
     }
+    dep = {0: 0}
+    for c in order:
+        dep[c] = dep[parent[c]] + 1
+    # a connection is "re-ordered and flagged" when its maps is a true permutation and it carries a True flag
+    reordered = [c for c in order if len(maps[c]) and [int(r[0]) for r in maps[c]] != sorted(int(r[0]) for r in maps[c])]
     info = {"style": style, "order": order, "parent": parent, "expected_upa": exp_a, "expected_upq": exp_qv,
+            "depth": max(dep.values()), "children": {s: list(v) for s, v in children.items()}, "reordered": reordered,
             "skipped": {c: sorted(v) for c, v in skipped.items()}, "notall6_q_mismatch": False}
     return nas, info
 
@@ -261,7 +282,8 @@ def _boundary_rows(nas, c):
 
 
 DAMAGES = ["maps-scale", "maps-range", "maps-neg", "drop-dnid", "extra-dnid", "del-uset", "del-dnids", "del-maps",
-           "del-upids", "selist-drop", "upids-short", "maps-short", "maps-perm", "dup-dnid", "selist-dup"]
+           "del-upids", "selist-drop", "upids-short", "maps-short", "maps-perm", "dup-dnid", "selist-dup",
+           "selist-cycle"]
 
 
 def damage(rng, nas, what=None):
@@ -319,6 +341,14 @@ def damage(rng, nas, what=None):
     elif what == "selist-dup":
         r = n["selist"][rng.randrange(len(n["selist"]))].copy()
         n["selist"] = np.vstack([n["selist"], r])
+    elif what == "selist-cycle":
+        # an upstream SE becomes the downstream SE of its own downstream SE (a 2-cycle), or of the residual
+        sl = n["selist"].tolist()
+        deep = [r for r in sl if r[0] != r[1] and r[1] != 0]
+        r = rng.choice(deep) if deep and rng.random() < 0.8 else rng.choice([x for x in sl if x[0] != x[1]])
+        k = rng.randint(0, len(sl))
+        n["selist"] = np.array(sl[:k] + [[r[1], r[0]]] + sl[k:], dtype=np.int64)
+        c = r[0]
     elif what == "upids-short":
         k = rng.choice(list(n["upids"]))
         if len(n["upids"][k]):
